@@ -74,7 +74,7 @@ def space(tier, seed):
         qs.append(('str', {'items': [A('MIN', 'l', D), A('MAX', 'l', D), A('MIN', 'U', D), A('MAX', 'C', D), A('COUNT', 'U', D)], 'where': None, 'group': grp}))
         qs.append(('str', {'items': [A('MAX', 'l', D), A('ANY_VALUE', 'l', D)], 'where': wheres[1], 'group': grp}))
     # ARRAY_AGG with its documented callback argument (applied to the aggregated list of each group)
-    for cb in ('sorted_top2', 'count', 'joined'):
+    for cb in ('sorted_top2', 'count', 'joined', 'others', 'count_minus_one'):      # the last two return falsy values ([] / 0) for one-element groups
         for grp in (None, [F('a', 1)]):
             qs.append(('str', {'items': ([F('a', 1)] if grp else []) + [('agg', 'ARRAY_AGG', 'U', F('a', 3), cb), ('agg', 'COUNT', 'U', ('star', None))], 'where': None, 'group': grp}))
     qs.append(('str', {'items': [('agg', 'ARRAY_AGG', 'l', F('a', 3), 'joined'), ('agg', 'ARRAY_AGG', 'U', F('a', 1), 'sorted_top2'), ('agg', 'ARRAY_AGG', 'U', F('a', 3))], 'where': wheres[1], 'group': [F('a', 1)]}))
